@@ -1,6 +1,7 @@
 /-
   C12 — Tuning parameters change space/time only, never answers.
 -/
+import CSD.Lemmas.HashBlocks
 import CSD.Generated.Bodies
 import CSD.Model.SourceText
 import CSD.Lemmas.PFCMeta
@@ -36,6 +37,45 @@ theorem pfc_bucketsize_clamped (b : Nat) (hb : b < 2) (S : List Str) :
   simp [hb]
 
 example : PFC.build 0 [[0x61], [0x62]] = PFC.build 2 [[0x61], [0x62]] := pfc_bucketsize_clamped 0 (by decide) _
+
+/-- Hash table size (the `overhead` parameter) does not change what the dictionary *is*: for any two
+requested sizes that hold the strings (and were accepted by `nearest_prime`), the same strings are
+members, and `extract ∘ locate` is the identity on them in both — only the ID assignment differs, as
+the property allows for hash kinds. -/
+theorem hash_overhead_independent (t1 t2 : Nat) (S : List Str) (hnd : S.Nodup)
+    (h1 : S.length ≤ t1) (h2 : S.length ≤ t2)
+    (a1 : Hash.accepted (Hash.build t1 S).tsize = true) (a2 : Hash.accepted (Hash.build t2 S).tsize = true)
+    (q : Str) :
+    (Hash.locate (Hash.build t1 S) q = 0 ↔ Hash.locate (Hash.build t2 S) q = 0) ∧
+    (q ∈ S → Hash.extract (Hash.build t1 S) (Hash.locate (Hash.build t1 S) q) =
+             Hash.extract (Hash.build t2 S) (Hash.locate (Hash.build t2 S) q)) := by
+  have g1 := Hash.goodDict_build t1 S hnd h1 a1
+  have g2 := Hash.goodDict_build t2 S hnd h2 a2
+  constructor
+  · by_cases hq : q ∈ S
+    · obtain ⟨k, hk⟩ := List.mem_iff_getElem?.mp hq
+      have r1 := (Hash.locate_range g1 k q hk).1
+      have r2 := (Hash.locate_range g2 k q hk).1
+      constructor <;> intro h <;> omega
+    · rw [Hash.locate_absent g1 q hq, Hash.locate_absent g2 q hq]
+  · intro hq
+    obtain ⟨k, hk⟩ := List.mem_iff_getElem?.mp hq
+    rw [Hash.extract_locate g1 k q hk, Hash.extract_locate g2 k q hk]
+
+/-- Cut size (HASHRPDACBlocks) does not change membership nor the round trip either. -/
+theorem blocks_cut_size_independent (c1 c2 : Nat) (f1 f2 : Nat → Nat) (S : List Str)
+    (ok1 : Hash.PartsOK c1 f1 S) (ok2 : Hash.PartsOK c2 f2 S) (q : Str) :
+    (Hash.locateBlocks (Hash.buildBlocks c1 f1 S) q = 0 ↔ Hash.locateBlocks (Hash.buildBlocks c2 f2 S) q = 0) ∧
+    (q ∈ S → Hash.extractBlocks (Hash.buildBlocks c1 f1 S) (Hash.locateBlocks (Hash.buildBlocks c1 f1 S) q) =
+             Hash.extractBlocks (Hash.buildBlocks c2 f2 S) (Hash.locateBlocks (Hash.buildBlocks c2 f2 S) q)) := by
+  constructor
+  · by_cases hq : q ∈ S
+    · have r1 := (Hash.blocks_locate_member ok1 q hq).1
+      have r2 := (Hash.blocks_locate_member ok2 q hq).1
+      constructor <;> intro h <;> omega
+    · rw [Hash.blocks_locate_absent ok1 q hq, Hash.blocks_locate_absent ok2 q hq]
+  · intro hq
+    rw [(Hash.blocks_locate_member ok1 q hq).2.2, (Hash.blocks_locate_member ok2 q hq).2.2]
 
 /-- The models this file's theorems are about were written against the current text of the C++
 functions they mirror (`CSD/Generated/Bodies.lean` is re-extracted from the sources on every run,
